@@ -35,6 +35,8 @@ def main():
             return 0 if ok else 2
         if args.replay:
             return mod.replay(rep, args.replay)
+        import shutil
+        shutil.rmtree(os.path.join(core.VERIF, "replays", pid), ignore_errors=True)   # replay files of earlier runs are stale
         mod.run(rep, args.tier, seed)
         return rep.finish()
     except core.MachineryError as e:
